@@ -458,6 +458,7 @@ func init() {
 		for i := 0; i < 40*scale; i++ {
 			runSuper("random", r.Bytes(r.Intn(48)))
 		}
+		runTextParsers(c, r, scale)
 		return nil
 	})
 }
